@@ -5,6 +5,13 @@ V = os.path.dirname(os.path.dirname(os.path.abspath(__file__)))
 ALL = ["C%02d" % i for i in range(1, 21)]
 
 CLAIMED = {
+ "C08": dict(
+   level="exploration",
+   text="Content profile (nested if/elseif/else, foreach with item/index, assign, raise, log, script, send to #_internal in onentry/onexit/transition/initial/history bodies; rfsm-expression and strict ECMAScript) with an observation mark between all elements and at most one injected failing evaluation per block (12 kinds); the observed trace with error events projected out must equal the reference content interpreter's (either continuation of an erroring if-condition accepted) and error.execution must be dequeued exactly in the macrosteps in which the reference raised it.",
+   design="6/C08",
+   note="No generated transition matches error.* so the number of error events per failure (>= 1) is not constrained. <param> errors (which do not abort the send) and finalize bodies are not injected here.",
+   technique="property-based differential testing vs. reference content interpreter with fault (evaluation-error) injection"),
+
  "C04": dict(
    level="exploration",
    text="Full-grammar documents (every element kind and attribute combination the reader knows, opaque expression texts needing XML escaping) are rendered twice with independent lexical choices (whitespace, comments, quoting, attribute order, character/entity references, CDATA, namespace prefix, start/end tag for empty elements, initial attribute vs <initial>, descriptor spelling, XInclude of text fragments); the by-name dump of the parsed model must equal the dump computed from the AST, both renderings must give equal dumps, parsing must be deterministic and must not panic.",
